@@ -111,13 +111,16 @@ def d2_numbering_is_the_counters(ctx, rm: REModel):
 
 def d3_collect_accounting(ctx, rm: REModel, rule="C05.D3-collect-advances-by-indices"):
     col = rm.b("collect")
-    bumps = [s for s in A.walk_stmts(col.node.body) if isinstance(s, ast.AugAssign) and "self._sequence_counters[" in A.norm(s.target)]
+    # every statement of collect that writes the stream's counter
+    bumps = [s for s in A.walk_stmts(col.node.body) if isinstance(s, (ast.Assign, ast.AugAssign, ast.AnnAssign)) and
+             any(isinstance(t, ast.Subscript) and A.norm(t.value) == "self._sequence_counters" for t in A.targets_of(s))]
     for s in bumps:
-        ok = isinstance(s.op, ast.Add) and A.norm(s.value) == "indices_difference" and A.norm(s.target) == "self._sequence_counters[stream_name]"
-        ctx.ob(rule, cname(col, s), ok, "" if ok else "the counter does not advance by exactly the number of indices declared by the stream datums",
-               where=where(col, s))
-    ctx.ob(rule, cname(col, None, "both event-less branches advance the counter"), len(bumps) == 2,
-           "" if len(bumps) == 2 else f"{len(bumps)} counter bumps in collect (expected the 2 branches that emit no events)", where=where(col, col.node))
+        ok = isinstance(s, ast.AugAssign) and isinstance(s.op, ast.Add) and A.norm(s.value) == "indices_difference" and A.norm(s.target) == "self._sequence_counters[stream_name]"
+        ctx.ob(rule, cname(col, s), ok, "" if ok else "the counter does not advance by exactly the number of indices declared by the stream datums "
+               "(it is set from something else: seq_nums of later stream datums are no longer contiguous and num_events is wrong)",
+               nontrivial=True, where=where(col, s))
+    ctx.ob(rule, cname(col, None, "collect advances the counter itself where no events do"), len(bumps) >= 1,
+           "" if bumps else "no counter bump left in collect", where=where(col, col.node))
     g = q.cfg(col, q.quiet_policy(rm.repo))
     for s in bumps:
         nid = g.nodes_of(s)
@@ -125,6 +128,18 @@ def d3_collect_accounting(ctx, rm: REModel, rule="C05.D3-collect-advances-by-ind
         ok = bool(defs) and all(kind == "assign" and "_pack_external_assets" in A.norm(val) for kind, val, _n in defs)
         ctx.ob(rule, cname(col, s) + " <- _pack_external_assets", ok, "" if ok else "indices_difference is not the value returned for the packed stream datums",
                nontrivial=True, where=where(col, s))
+    # coverage: from the packing of the stream datums every normal return passes a bump or an event emitter (which counts through event_model)
+    defs = [s for s in A.walk_stmts(col.node.body) if isinstance(s, ast.Assign) and any(isinstance(t, ast.Name) and t.id == "indices_difference" for t in s.targets)]
+    if defs:
+        cut = {id(b) for b in bumps} | {id(s) for s in A.walk_stmts(col.node.body) if not isinstance(s, (ast.If, ast.For, ast.While, ast.Try, ast.With))
+                                        and (A.find_calls(s, "_collect_events") or A.find_calls(s, "_collect_event_pages"))}
+        starts = [n for d in defs for n in g.nodes_of(d)]
+        seen = g.reachable(starts, avoid=lambda n: n.stmt is not None and id(n.stmt) in cut)
+        esc = [p for p, label in g.pred[g.exit] if p in seen]
+        ok = not esc
+        ctx.ob(rule, cname(col, None, "every return after the packing passed a counter bump or an event emitter"), ok,
+               "" if ok else "a path through collect packs stream datums but neither emits events nor advances the counter: the next datums reuse seq_nums",
+               nontrivial=True, witness=None if ok else g.path_to(seen, esc[0])[-8:], where=where(col, col.node))
     pk = rm.b("_pack_seq_nums_into_stream_datum")
     txt = A.norm(pk.node)
     ok1 = "indices_difference = doc['indices']['stop'] - doc['indices']['start']" in txt
